@@ -23,9 +23,29 @@ FWD = "src/engine/engine_forward.c"
 INV = "src/engine/engine_inverse.c"
 
 
-def signature(live):
-    flags, calls, signs, cond_arrays = set(), set(), set(), set()
+def _with_helpers(live, unit):
+    """(kind, node) stream of a live-code list, extended by the bodies of same-TU static helpers it calls that could not be
+    analysed in place (value-returning helpers with a search loop); a helper called from a condition contributes as condition"""
+    seen = set()
+
+    def emit(kind, n, depth):
+        yield kind, n
+        if unit is not None and cir.is_call(n) and depth < 3:
+            h = unit.funcs.get(cir.callee(n))
+            if h is not None and h.get("storageClass") == "static" and h.get("file") in (None, unit.tu) and h.get("n") not in seen \
+                    and not (h.get("t") or "").startswith("void"):
+                seen.add(h.get("n"))
+                for x in cir.walk(cir.body(h)):
+                    # inside a predicate helper everything decides the caller's condition
+                    yield from emit("cond", x, depth + 1)
     for kind, n in specialise.nodes(live):
+        yield from emit(kind, n, 0)
+
+
+def signature(live, unit=None):
+    flags, calls, signs, cond_arrays = set(), set(), set(), set()
+    stream = list(_with_helpers(live, unit))
+    for kind, n in stream:
         k = n.get("k")
         if k == "DeclRefExpr" and (n.get("ref") or {}).get("k") == "EnumConstantDecl":
             nm = n["ref"]["n"]
@@ -54,10 +74,10 @@ def signature(live):
                         "mjModel" in ((cir.strip(cir.kids(b)[0]) or {}).get("t") or "") and "*" in (b.get("t") or ""):
                     cond_arrays.add(b.get("n"))
     # timestep scaling sign: find `- m->opt.timestep` vs `m->opt.timestep` as factor / argument
-    for kind, n in specialise.nodes(live):
+    for kind, n in stream:
         if n.get("k") == "UnaryOperator" and n.get("op") == "-" and cir.text(cir.kids(n)[0]) == "m->opt.timestep":
             signs.add("-h")
-    for kind, n in specialise.nodes(live):
+    for kind, n in stream:
         if n.get("k") in ("BinaryOperator", "CompoundAssignOperator") and n.get("op") in ("*", "+=", "*="):
             t = cir.text(n)
             if "m->opt.timestep *" in t or "* m->opt.timestep" in t:
@@ -80,16 +100,24 @@ def run(res, tier):
     res.rule("R-SIBLING-GUARD", "forward integrator and discrete inverse build the same matrix under the same option guards", floor=10)
     pairs = [("EULER", "mj_EulerSkip", "mjINT_EULER"), ("IMPLICIT", "mj_implicitSkip", "mjINT_IMPLICIT"),
              ("IMPLICITFAST", "mj_implicitSkip", "mjINT_IMPLICITFAST")]
-    inv_fn = ui.funcs["mj_discreteAcc"]
-    # the inverse's per-integrator region: the statements of the matching switch case only
-    sw = [n for n in cir.walk(inv_fn) if n.get("k") == "SwitchStmt"]
-    if len(sw) != 1 or "integrator" not in cir.text(cir.kids(sw[0])[0]):
-        raise AnalysisError("mj_discreteAcc: expected one switch over the integrator")
-    pseudo = {"k": "FunctionDecl", "n": "mj_discreteAcc.switch", "i": [{"k": "CompoundStmt", "i": [sw[0]]}]}
+    from .. import norm
+    # canonical views: static helpers analysed in place; the inverse's per-integrator code is what stays live in
+    # mj_discreteAcc when m->opt.integrator is bound (switch, if-chain or hoisted local alike)
+    inv_fn = norm.canon(ui, "mj_discreteAcc", nested=False, propagate=True)
+    pseudo = inv_fn
+    if not any("integrator" in cir.text(x) for x in cir.walk(inv_fn) if x.get("k") == "MemberExpr"):
+        raise AnalysisError("mj_discreteAcc: no dispatch on m->opt.integrator found")
+    # statements live for every integrator (prologue / epilogue) are not part of any integrator's own code
+    ints_all = [n_ for n_ in enum if n_.startswith("mjINT_")]
+    lives = {n_: SI.live(pseudo, {"m->opt.integrator": enum[n_], "skipfactor": 0}) for n_ in ints_all}
+    common = None
+    for n_, lv in lives.items():
+        ids = {id(x) for _k, x in lv}
+        common = ids if common is None else (common & ids)
     for name, ffn, en in pairs:
         env = {"m->opt.integrator": enum[en], "skipfactor": 0}
-        a = signature(SF.live(uf.funcs[ffn], env))
-        b = signature(SI.live(pseudo, env))
+        a = signature(SF.live(norm.canon(uf, ffn, nested=False, propagate=True, exclude=("mj_advance",)), env), uf)
+        b = signature([(k_, x) for k_, x in lives[en] if id(x) not in common], ui)
         res.count("pairs")
         for key, what in (("flags", "option disable flags tested"), ("calls", "derivative-building calls"),
                           ("signs", "sign of the timestep scaling"), ("cond_arrays", "model arrays deciding implicit damping")):
